@@ -10,7 +10,7 @@ import ast
 from sa import rx
 from sa.model import AnalysisError, walk_no_nested, norm, mangle, call_name, stmt_of
 from sa.util import establishes_empty, attr_calls, self_calls, fact_atom, const_value, raise_name, attr_writes, attr_reads, contains
-from sa.consteval import TOP
+from sa.consteval import TOP, Evaluator
 from sa.cfg import assigned_targets, names_in
 from .roles import ClientRoles
 
@@ -36,6 +36,30 @@ def run(ctx):
 
 
 def reader_rules(ctx, R):
+    # ---- M7: the property itself, on samples ----------------------------------------
+    ctx.rule("M7", "assembler + readers interpreted over sample reply streams: the same result under every segmentation")
+    try:
+        mev = reader_eval(ctx, R, thorough=(ctx.tier == "thorough"))
+    except RecursionError:
+        mev = None
+    if mev is not None and mev[0] == "bad":
+        ctx.violation("M7", R.assembler or R.line_reader, "model:segmentation", mev[1], node=(R.assembler or R.line_reader).node,
+                      witness="the same server output, cut differently by the transport, is read differently")
+    elif mev is not None:
+        ctx.holds("M7", "%d deliveries of %d reply streams (status lines, quoted and literal listings, a script literal, NO with a literal "
+                  "text, replies back to back; one segment, a cut at every position, one octet per segment, pairs of cuts) are read to the "
+                  "same (code, text, content) and error fields" % (mev[1], len(STREAMS)))
+    else:
+        ctx.notice("M7", "the interpreter cannot follow the readers; the structural rules M1-M6 decide")
+    try:
+        _reader_rules_structural(ctx, R)
+    except AnalysisError as e:
+        if mev is None:
+            raise
+        ctx.notice(e.rule, "reader idiom not recognised by the structural rule (%s); the readers are decided by evaluation (M7)" % e.why)
+
+
+def _reader_rules_structural(ctx, R):
     blk, lin = R.block_reader, R.line_reader
 
     m1(ctx, R)
@@ -835,3 +859,164 @@ def block_invariant(ctx, blk, size_param):
             return "on a path into the loop, bytes already taken (%s) + bytes still requested (%s) = %s, not the announced size N" % (
                 show(la), show(rem), show(total))
     return True
+
+
+# ================================================================================ M7: the readers evaluated over segmentations
+STREAMS = [
+    [b"OK\r\n"],
+    [b'NO (QUOTA/MAXSIZE) "too big"\r\n'],
+    [b'"a"\r\n"b" ACTIVE\r\nOK "Listed"\r\n'],
+    [b"{14}\r\nkeep;\r\nstop;\r\n\r\nOK\r\n"],
+    [b'{3}\r\nabc\r\n"x"\r\nOK\r\n'],
+    [b"NO {5}\r\nhello\r\n"],
+    [b'"a"\r\nOK\r\n', b"OK\r\n"],                      # two replies back to back: the second must be untouched by the first
+    [b"{6}\r\nab\r\ncd\r\nOK\r\n", b'"n"\r\nOK\r\n'],
+    [b"NO {5}\r\nhello\r\n", b"OK\r\n"],
+]
+
+
+def reader_eval(ctx, R, thorough=False):
+    """M7 by evaluation: the response assembler (with the line reader, the block reader and the error parser it calls) interpreted over
+    sample reply streams, each delivered under many segmentations (one segment; a cut at every position; one octet per segment; cuts in
+    pairs).  What the assembler returns for every reply of the stream, and the client's error fields, must be the same under every
+    segmentation - the statement of the property, on samples.  -> ("ok", n) | ("bad", what) | None (cannot follow the readers)."""
+    import re
+    from sa import fd
+    from sa.util import module_resolver
+    asm = R.assembler
+    if asm is None:
+        return None
+    sn = asm.params[0]
+    base = {}
+    for a, (pat, flags, _n) in R.regex_attrs.items():
+        if isinstance(pat, (bytes, str)) and not a.startswith("<re:"):
+            try:
+                cp = re.compile(pat, flags)
+            except re.error:
+                return None
+            short = a[len("_" + R.cls.name):] if a.startswith("_" + R.cls.name + "__") else a
+            for nm in {a, short}:
+                base["%s.%s" % (sn, nm)] = fd.Const(cp)
+    ev = Evaluator(ctx.program, R.module, R.cls)
+    for a_, v_ in R.cls.attrs.items():
+        cv_ = ev.eval(v_)
+        if cv_ is not TOP and isinstance(cv_, (int, str, bytes, bool)):
+            base["%s.%s" % (sn, a_)] = fd.Const(cv_)
+    init = R.methods.get("__init__")
+    if init is not None:
+        for st_ in walk_no_nested(init.node):
+            if isinstance(st_, ast.Assign) and len(st_.targets) == 1 and isinstance(st_.targets[0], ast.Attribute) \
+                    and isinstance(st_.targets[0].value, ast.Name) and st_.targets[0].value.id == init.params[0]:
+                v = const_value(ctx.program, init, st_.value)
+                if v is not TOP and isinstance(v, (int, str, bytes, bool, type(None))):
+                    base.setdefault("%s.%s" % (sn, st_.targets[0].attr), fd.Const(v))
+                elif isinstance(st_.value, ast.Call) and isinstance(st_.value.func, ast.Name) and st_.value.func.id in ("bytearray", "bytes") \
+                        and not st_.value.args:
+                    base.setdefault("%s.%s" % (sn, st_.targets[0].attr), fd.Const(b""))
+    base["%s.%s" % (sn, unmangled(R, R.buffer_attr))] = base.get("%s.%s" % (sn, unmangled(R, R.buffer_attr)), fd.Const(b""))
+
+    def exc_fields(name, args):
+        c = ctx.program.cls(name)
+        if c is None:
+            return None
+        ini = c.methods.get("__init__")
+        if ini is None:
+            return {"args": tuple(args)}
+        out = {}
+        for st_ in walk_no_nested(ini.node):
+            if isinstance(st_, ast.Assign) and isinstance(st_.targets[0], ast.Attribute) and isinstance(st_.value, ast.Name) \
+                    and st_.value.id in ini.params[1:]:
+                i = ini.params[1:].index(st_.value.id)
+                if i < len(args):
+                    a = args[i]
+                    out[st_.targets[0].attr] = a.v if isinstance(a, fd.Const) else a
+        return out
+
+    def oracle(interp, e, name, recv, args, kw, st):
+        if name == "recv" and args and isinstance(args[0], fd.Const) and isinstance(args[0].v, int):
+            ch = st.env.get("@chunks")
+            ci = st.env.get("@ci")
+            if not isinstance(ch, fd.Const) or not isinstance(ci, fd.Const):
+                return None
+            chunks, i = ch.v, ci.v
+            if i >= len(chunks):
+                return [fd.Exc("timeout", e)]
+            out, rest = chunks[i][:args[0].v], chunks[i][args[0].v:]
+            if rest:
+                st.env["@chunks"] = fd.Const(chunks[:i] + (rest,) + chunks[i + 1:])
+            else:
+                st.env["@ci"] = fd.Const(i + 1)
+            return [(fd.Const(out), None)]
+        if name and name.startswith("self.") and ("print" in name or "debug" in name.lower() or "log" in name.lower()):
+            return [(fd.Const(None), None)]
+        if name and name.startswith("self."):
+            m = R.methods.get(name[5:]) or R.methods.get(mangle(R.cls.name, name[5:]))
+            if m is not None and m.node is not interp.f:
+                return fd.Inline(m)
+        fn = e.func
+        if isinstance(fn, ast.Name) and fn.id in R.module.funcs:
+            return fd.Inline(R.module.funcs[fn.id])
+        if name == "len" and args and isinstance(args[0], fd.Const) and isinstance(args[0].v, (bytes, bytearray, str, list, tuple)):
+            return [(fd.Const(len(args[0].v)), None)]
+        return None
+
+    def deliver(stream, cuts):
+        whole = b"".join(stream)
+        pts = [0] + sorted(set(c for c in cuts if 0 < c < len(whole))) + [len(whole)]
+        chunks = tuple(whole[a:b] for a, b in zip(pts, pts[1:]) if b > a)
+        env = dict(base)
+        env["@chunks"] = fd.Const(chunks)
+        env["@ci"] = fd.Const(0)
+        results = []
+        for _reply in stream:
+            it = fd.Interp(asm.node, R.cls.name, oracle, resolve=module_resolver(ctx.program, R.module), loop_unroll=3 * len(whole) + 12,
+                           max_depth=6, max_paths=40)
+            it.exc_fields = exc_fields
+            try:
+                ps = it.run(dict(env))
+            except (fd.TooManyPaths, RecursionError):
+                return None
+            if len(ps) != 1:
+                return None
+            p = ps[0]
+            if p.kind == "raise":
+                results.append(("raise", p.value))
+                break
+            v = p.value
+            v = v.v if isinstance(v, fd.Const) else tuple(x.v if isinstance(x, fd.Const) else None for x in v.items) if isinstance(v, fd.Tup) else None
+            if v is None or (isinstance(v, tuple) and any(x is None and False for x in v)):
+                return None
+            errs = tuple((k[len(sn) + 1:], x.v) for k, x in sorted(p.env.items()) if k.startswith(sn + ".err") and isinstance(x, fd.Const))
+            results.append((v, errs))
+            env = {k: x for k, x in p.env.items() if k.startswith(sn + ".") or k.startswith("@")}
+        return results
+
+    n = 0
+    for stream in STREAMS:
+        whole = b"".join(stream)
+        ref = deliver(stream, [])
+        if ref is None:
+            return None
+        if ctx.__dict__.get("_debug_m7"):
+            print("REF", whole, ref)
+        if any(r[0] == "raise" for r in ref if isinstance(r, tuple) and len(r) == 2 and r[0] == "raise"):
+            return None  # the one-segment delivery itself is not followed to a result: nothing to compare with
+        L = len(whole)
+        step = 1 if (thorough or L <= 24) else 2
+        schedules = [[c] for c in range(1, L, step)] + [list(range(1, L))] + [[c, c + 1] for c in range(1, L - 1, 3)] + [[c, L - 2] for c in range(2, L - 3, 5)]
+        for cuts in schedules:
+            got = deliver(stream, cuts)
+            if got is None:
+                return None
+            n += 1
+            if got != ref:
+                pts = sorted(set(cuts))
+                shown = [whole[a:b] for a, b in zip([0] + pts, pts + [L])]
+                return ("bad", "the reply stream %r delivered as %s is read as %r; delivered in one segment it is read as %r"
+                        % (whole, shown if len(shown) <= 4 else "%d one-octet segments" % len(shown), got, ref))
+    return ("ok", n)
+
+
+def unmangled(R, attr):
+    pre = "_" + R.cls.name
+    return attr[len(pre):] if attr.startswith(pre + "__") else attr
